@@ -251,7 +251,17 @@ def _crd_gen():
     )
 
 
-GEN_BUILDERS = [_glog_gen, _vasp_gen, _crd_gen]
+def _extxyz_gen():
+    from iodata.utils import STRTOBOOL
+
+    tree = ast.parse(_src("extxyz"))
+    parts = [lstrs(_flat(_body(_func(tree, fn)))) for fn in ("_convert_title_value", "_parse_properties", "_parse_title", "load_one")]
+    tb = ", ".join(f"({chars(k)}, {lb(v)})" for k, v in STRTOBOOL.items())
+    return ("def strtoboolT : List (List Char × Bool) :=\n  [" + tb + "]\n\n"
+            "def extxyzSkel : List (List (List Char)) :=\n  [" + ",\n   ".join(parts) + "]\n")
+
+
+GEN_BUILDERS = [_glog_gen, _vasp_gen, _crd_gen, _extxyz_gen]
 
 
 def build_gen() -> str:
@@ -723,11 +733,256 @@ def crd_impl(raw, ref):
                              snap_list(d.atmasses, toks(rf[3]))])
 
 
+# ---------------------------------------------------------------------------------------------
+# extended XYZ
+
+EXT_WORDS = ["abc", "Water", "run_7", "x-y", "a.b", "PBE0", "tag"]
+EXT_SIZES = [1, 2, 3, 9, 10, 11, 0, 4]
+
+
+def _dec_text(x):
+    """plain decimal text of ±man·10^exp (exp <= 0)"""
+    neg, man, exp = x
+    d = -exp
+    if d == 0:
+        return ("-" if neg else "") + str(man)
+    digits = str(man).zfill(d + 1)
+    return ("-" if neg else "") + digits[:-d] + "." + digits[-d:]
+
+
+def _ext_val(rng, dtype):
+    if dtype == "R":
+        return rand_fixed(rng, rng.choice([1, 4, 8]), 2)
+    if dtype == "I":
+        return rng.choice([0, 1, 7, 42, 1000, -3, -12])
+    if dtype == "L":
+        return rng.choice(["T", "F", "True", "false", "1", "0", "yes", "N"])
+    return rng.choice(EXT_WORDS + ["averyveryverylongatomlabel_25c", "averyveryverylongatomlabel_26ch"])
+
+
+def extxyz_gen(rng, i, thorough):
+    from iodata.periodic import num2sym
+
+    n = EXT_SIZES[i % len(EXT_SIZES)] if i < 2 * len(EXT_SIZES) else rng.randint(1, 30)
+    zmode = rng.choice(["species", "species", "Z", "both"])
+    props = [("pos", "R", 3)]
+    props.insert(rng.randint(0, 1), ("species", "S", 1) if zmode != "Z" else ("Z", "I", 1))
+    if zmode == "both":
+        props.insert(rng.randint(0, len(props)), ("Z", "I", 1))
+    if rng.random() < 0.4:
+        props.insert(rng.randint(0, len(props)), ("masses", "R", 1))
+    if rng.random() < 0.4:
+        props.insert(rng.randint(0, len(props)), ("force", "R", 3))
+    for k in range(rng.choice([0, 0, 1, 2])):
+        props.insert(rng.randint(0, len(props)), (f"{rng.choice(['tags', 'q', 'lab', 'mom'])}{k}", rng.choice("SRIL"), rng.randint(1, 3)))
+    atoms = []
+    for _ in range(n):
+        z = rng.randint(1, 118)
+        cells = []
+        for name, dt, nc in props:
+            if name == "Z" and zmode != "species":
+                cells.append([("Z", z, str(z))])
+            elif name == "species" and zmode == "species":
+                sym = num2sym[z]
+                cells.append([("Z", z, rng.choice([sym, sym.upper(), sym.lower(), str(z)]))])
+            elif name == "species":
+                cells.append([("S", num2sym[z])])
+            elif name in ("pos", "force", "masses"):
+                cells.append([("R", rand_fixed(rng, rng.choice([4, 8, 10]), 3)) for _ in range(nc if name != "masses" else 1)])
+            else:
+                cells.append([(dt, _ext_val(rng, dt)) for _ in range(nc)])
+        atoms.append(cells)
+    pairs = [("Properties", ":".join(f"{a}:{b}:{c}" for a, b, c in props), "bare")]
+    m = {"n": n, "props": props, "zmode": zmode, "atoms": atoms, "lattice": None, "energy": None, "charge": None, "extra": []}
+    if rng.random() < 0.7:
+        m["lattice"] = [rand_fixed(rng, rng.choice([1, 6, 8]), 2) for _ in range(9)]
+        pairs.append(("Lattice", " ".join(_dec_text(x) for x in m["lattice"]), "dq"))
+    if rng.random() < 0.5:
+        m["energy"] = rand_fixed(rng, 9, 3)
+        pairs.append(("energy", _dec_text(m["energy"]), "bare"))
+    if rng.random() < 0.3:
+        q = rng.choice([0, 1, 2])
+        m["charge"] = (q != 0 and rng.random() < 0.5, q, 0)  # the charge is re-derived from nelec: the sign of a zero is not kept
+        pairs.append(("charge", _dec_text(m["charge"]), "bare"))
+    if rng.random() < 0.5:
+        b = [rng.random() < 0.5 for _ in range(3)]
+        m["extra"].append(("pbc", "Tb", b))
+        pairs.append(("pbc", " ".join("T" if x else "F" for x in b), rng.choice(["dq", "sq"])))
+    for k in range(rng.choice([0, 1, 2, 3])):
+        key = f"k{k}_{rng.choice(EXT_WORDS)}"
+        kind = rng.choice(["i", "f", "b", "s", "Ti", "Tf", "Ts", "flag", "s2"])
+        if kind == "i":
+            v = rng.choice([0, 5, 12345]); m["extra"].append((key, "i", v)); pairs.append((key, str(v), "bare"))
+        elif kind == "f":
+            v = rand_fixed(rng, 3, 2); m["extra"].append((key, "f", v)); pairs.append((key, _dec_text(v), rng.choice(["bare", "dq"])))
+        elif kind == "b":
+            v = rng.random() < 0.5; m["extra"].append((key, "b", v)); pairs.append((key, rng.choice(["T", "true"]) if v else rng.choice(["F", "no"]), "bare"))
+        elif kind == "s":
+            v = rng.choice(EXT_WORDS); m["extra"].append((key, "s", v)); pairs.append((key, v, rng.choice(["bare", "dq", "sq"])))
+        elif kind == "Ti":
+            v = [rng.randint(-5, 50) for _ in range(rng.randint(2, 4))]; m["extra"].append((key, "Ti", v)); pairs.append((key, " ".join(map(str, v)), "dq"))
+        elif kind == "Tf":
+            v = [rand_fixed(rng, 2, 2) for _ in range(rng.randint(2, 4))]; m["extra"].append((key, "Tf", v)); pairs.append((key, " ".join(map(_dec_text, v)), "dq"))
+        elif kind == "Ts":
+            v = [rng.choice(EXT_WORDS) for _ in range(rng.randint(2, 3))]; m["extra"].append((key, "Ts", v)); pairs.append((key, " ".join(v), rng.choice(["dq", "sq"])))
+        elif kind == "s2":
+            v = 'say "hi"'; m["extra"].append((key, "Ts", ["say", '"hi"'])); pairs.append((key, v, "esc"))
+        else:
+            m["extra"].append((key, "b", True)); pairs.append((key, None, "flag"))
+    rng.shuffle(pairs)
+    m["pairs"] = pairs
+    m["sep"] = rng.choice([" ", "  ", "\t"])
+    cls = f"n={n if n in EXT_SIZES else 'rand'}/{zmode}/lat={int(m['lattice'] is not None)}/props={len(props)}/extra={len(m['extra'])}"
+    return m, cls
+
+
+def extxyz_write(m):
+    """independent writer of the ASE extended XYZ layout"""
+    def pair(k, v, q):
+        if q == "flag":
+            return k
+        if q == "dq":
+            return f'{k}="{v}"'
+        if q == "sq":
+            return f"{k}='{v}'"
+        if q == "esc":
+            return k + '="' + v.replace('"', '\\"') + '"'
+        return f"{k}={v}"
+    L = [str(m["n"]), " ".join(pair(*p) for p in m["pairs"])]
+    for cells in m["atoms"]:
+        words = []
+        for col in cells:
+            for c in col:
+                if c[0] == "Z":
+                    words.append(c[2])
+                elif c[0] == "R":
+                    words.append(_dec_text(c[1]))
+                else:
+                    words.append(str(c[1]))
+        L.append(m["sep"].join(words))
+    return ("\n".join(L) + "\n").encode()
+
+
+def _ext_bool(w):
+    return w.lower() in ("t", "true", "1", "yes", "y", "on")
+
+
+def extxyz_expect(m):
+    ang, amu = _crd_units()
+    title = " ".join
+    raw = extxyz_write(m).decode().split("\n")
+    out = ["ok " + F.enc_str(raw[1].strip())]
+    out.append("-" if m["lattice"] is None else F.enc_list([num_frac(x) * ang for x in m["lattice"]], enc_rat))
+    out.append("-" if m["energy"] is None else enc_num(num_norm(m["energy"])))
+    out.append("-" if m["charge"] is None else enc_num(num_norm(m["charge"])))
+    cols = {name: [c for cells in m["atoms"] for c in cells[k]] for k, (name, _, _) in enumerate(m["props"])}
+    zname = "Z" if m["zmode"] != "species" else "species"
+    out.append(F.enc_list([c[1] for c in cols[zname]], str))
+    out.append(F.enc_list([num_frac(c[1]) * ang for c in cols["pos"]], enc_rat))
+    out.append("-" if "masses" not in cols else F.enc_list([num_frac(c[1]) * amu for c in cols["masses"]], enc_rat))
+    out.append("-" if "force" not in cols else F.enc_list([num_norm((not c[1][0], c[1][1], c[1][2])) for c in cols["force"]], enc_num))
+    extra = {}
+    for k, (name, dt, nc) in enumerate(m["props"]):
+        if name in ("pos", "masses", "force", zname):
+            continue
+        vals = cols[name]
+        code = {"S": "S", "R": "F", "I": "I", "L": "B"}[dt] + str(0 if nc == 1 else nc)
+        enc = {"S": lambda c: F.enc_str(str(c[1])[:25]), "R": lambda c: enc_num(num_norm(c[1])), "I": lambda c: str(c[1]),
+               "L": lambda c: str(int(_ext_bool(c[1])))}[dt]
+        extra[name] = code + ":" + F.enc_list(vals, enc)
+    for key, kind, v in m["extra"]:
+        if kind == "i":
+            extra[key] = f"i:{v}"
+        elif kind == "f":
+            extra[key] = "f:" + enc_num(num_norm(v))
+        elif kind == "b":
+            extra[key] = f"b:{int(v)}"
+        elif kind == "s":
+            extra[key] = "s:" + F.enc_str(v)
+        elif kind == "Ti":
+            extra[key] = "Ti:" + F.enc_list(v, str)
+        elif kind == "Tf":
+            extra[key] = "Tf:" + F.enc_list([num_norm(x) for x in v], enc_num)
+        elif kind == "Tb":
+            extra[key] = "Tb:" + F.enc_list(v, lambda b: str(int(b)))
+        elif kind == "Ts":
+            extra[key] = "Ts:" + F.enc_list(v, F.enc_str)
+    out.append(F.enc_list(sorted(extra), lambda k: F.enc_str(k) + "=" + extra[k]))
+    return ";".join(out)
+
+
+def _ext_enc_value(v):
+    import numpy as np
+
+    if isinstance(v, bool | np.bool_):
+        return f"b:{int(v)}"
+    if isinstance(v, int | np.integer):
+        return f"i:{int(v)}"
+    if isinstance(v, float | np.floating):
+        return "f:" + enc_num(num_of_float(v))
+    if isinstance(v, str):
+        return "s:" + F.enc_str(v)
+    if isinstance(v, np.ndarray):
+        k = v.dtype.kind
+        return {"i": "i", "f": "f", "b": "b", "U": "s"}.get(k, "?"), v
+    return "?:" + type(v).__name__
+
+
+def extxyz_impl(raw, ref, natom_hint=None):
+    import numpy as np
+
+    r = F.real_load(raw, "extxyz")
+    if not r.ok:
+        return "err " + r.err
+    if not ref.startswith("ok "):
+        return "ok <loaded>"
+    d = r.value
+    rf = ref[3:].split(";")
+    toks = lambda s: [] if s in ("@", "-") else s.split(",")  # noqa: E731
+    out = ["ok " + F.enc_str(d.title)]
+    out.append("-" if d.cellvecs is None else snap_list(d.cellvecs.ravel(), toks(rf[1])))
+    out.append("-" if d.energy is None else enc_num(num_of_float(d.energy)))
+    out.append("-" if d.charge is None else enc_num(num_of_float(d.charge)))
+    out.append("-" if d.atnums is None else F.enc_list([int(z) for z in d.atnums], str))
+    out.append("-" if d.atcoords is None else snap_list(d.atcoords.ravel(), toks(rf[5])))
+    out.append("-" if d.atmasses is None else snap_list(d.atmasses.ravel(), toks(rf[6])))
+    out.append("-" if d.atgradient is None else F.enc_list([num_of_float(v) for v in d.atgradient.ravel()], enc_num))
+    natom = None if d.atcoords is None else len(d.atcoords)
+    extra = {}
+    for key, v in (d.extra or {}).items():
+        e = _ext_enc_value(v)
+        if isinstance(e, tuple):
+            code, arr = e
+            enc = {"i": lambda x: str(int(x)), "f": lambda x: enc_num(num_of_float(x)), "b": lambda x: str(int(x)),
+                   "s": lambda x: F.enc_str(str(x))}.get(code, lambda x: "?")
+            per_atom = natom is not None and arr.ndim >= 1 and arr.shape[0] == natom and (arr.ndim == 2 or _is_column(ref, key))
+            if per_atom:
+                e = {"i": "I", "f": "F", "b": "B", "s": "S"}.get(code, "?") + str(0 if arr.ndim == 1 else arr.shape[1]) + ":" + F.enc_list(arr.ravel(), enc)
+            else:
+                e = "T" + code + ":" + F.enc_list(arr.ravel(), enc)
+        extra[str(key)] = e
+    out.append(F.enc_list(sorted(extra), lambda k: F.enc_str(k) + "=" + extra[k]))
+    return ";".join(out)
+
+
+def _is_column(ref, key):
+    """a 1-D array of length natom is a per-atom column iff the title's Properties names it (read from the reference line)"""
+    ex = ref[3:].split(";")[-1]
+    for item in ([] if ex == "@" else ex.split(",")):
+        k, _, code = item.partition("=")
+        if k == F.enc_str(key):
+            return code[0] in "IFBS"
+    return False
+
+
 FORMATS = {
     "glog": dict(fields=["one_ints.olp", "one_ints.kin_ao", "one_ints.na_ao", "two_ints.er_ao"], gen=glog_gen, enc=glog_enc, write=glog_write, expect=glog_expect, impl=lambda raw, ref, m: glog_impl_line(raw),
                  fmt="gaussianlog", n=(36, 300), load=lambda m: "glog"),
     "crd": dict(fields=["title", "atffparams/extra", "atcoords", "atmasses"], gen=crd_gen, enc=crd_enc, write=crd_write,
                 expect=crd_expect, impl=lambda raw, ref, m: crd_impl(raw, ref), fmt="charmm", n=(30, 300), load=lambda m: "crd"),
+    "extxyz": dict(fields=["title", "cellvecs", "energy", "charge", "atnums", "atcoords", "atmasses", "atgradient", "extra"],
+                   gen=extxyz_gen, enc=None, write=extxyz_write, expect=extxyz_expect, impl=lambda raw, ref, m: extxyz_impl(raw, ref),
+                   fmt="extxyz", n=(40, 400), load=lambda m: "extxyz"),
     "vasp": dict(fields=["title", "atnums", "cellvecs", "atcoords", "cube.shape", "cube.axes", "cube.data"], gen=vasp_gen, enc=vasp_enc, write=vasp_write, expect=vasp_expect,
                  impl=lambda raw, ref, m: vasp_impl(raw, ref, m["kind"]), fmt="chgcar/locpot", n=(36, 300), load=lambda m: m["kind"]),
 }
@@ -754,12 +1009,16 @@ def run_format(ctx, key, n, do_corr=True):
     fm = FORMATS[key]
     rng = ctx.rng
     ms = [fm["gen"](rng, i, ctx.thorough) for i in range(n)]
-    raws = _driver_ok(ctx, [f"fmtr spec {key} {fm['enc'](m)}" for m, _ in ms], key)
+    if fm["enc"] is None:  # no Lean renderer for the whole file: the Python writer of the published layout is the only one
+        raws = [fm["write"](m) for m, _ in ms]
+    else:
+        raws = _driver_ok(ctx, [f"fmtr spec {key} {fm['enc'](m)}" for m, _ in ms], key)
     lreq, limp, lcls = [], [], []
     for (m, cls), raw in zip(ms, raws):
         py = fm["write"](m)
         same = py == raw
-        ctx.count(f"spec-writers-agree:{key}", None, "same" if same else "DIFFER", nontrivial=False)
+        if fm["enc"] is not None:
+            ctx.count(f"spec-writers-agree:{key}", None, "same" if same else "DIFFER", nontrivial=False)
         if not same:
             k = next((i for i, (a, b) in enumerate(zip(py, raw)) if a != b), min(len(py), len(raw)))
             ctx.obligation(f"spec-writers-agree:{key}", False,
@@ -767,7 +1026,7 @@ def run_format(ctx, key, n, do_corr=True):
         expect = fm["expect"](m)
         line = fm["impl"](py, expect, m)
         ok = line == expect
-        ctx.count(f"spec-load:{key}", fm["enc"](m), cls + ("" if ok else "/DIFF"), sample={"format": key, "class": cls})
+        ctx.count(f"spec-load:{key}", py.hex()[:6000], cls + ("" if ok else "/DIFF"), sample={"format": key, "class": cls})
         if not ok:
             sig = f"{key}:spec:{_diff_kind(line, expect, fm.get('fields'))}"
             ctx.fail(sig, f"{fm['fmt']}: a file following the published layout is not loaded as written ({sig}; class {cls})",
@@ -796,7 +1055,8 @@ def corpus_corr(ctx):
 
 
 CORPUS = [("glog", "glog", "water_sto3g_hf_g03.log"), ("vasp", "chgcar", "CHGCAR.oxygen"), ("vasp", "chgcar", "CHGCAR.water"),
-          ("vasp", "locpot", "LOCPOT.oxygen"), ("crd", "crd", "crambin.crd")]
+          ("vasp", "locpot", "LOCPOT.oxygen"), ("crd", "crd", "crambin.crd"), ("extxyz", "extxyz", "al_fcc.xyz"),
+          ("extxyz", "extxyz", "water_extended_trajectory.xyz")]
 
 
 def search(ctx):
